@@ -103,6 +103,14 @@ def _check_node(s, n, lo, hi, strict, probs):
                 ps = n.macro_post_space or ''
                 if src[len(head):len(head) + len(ps)] != ps or ps.strip() != '':
                     probs.append(('macro-post-space', (ps, src)))
+                else:
+                    # a call none of whose arguments was written stands for its name and recorded post-space only:
+                    # whitespace after it that is not recorded belongs to what follows (not demanded at the very end of the
+                    # input, where a verbatim argument that is cut off by the end of the stream is reported as absent)
+                    al = getattr(getattr(n, 'nodeargd', None), 'argnlist', None)
+                    if (not al or all(a is None for a in al)) and getattr(getattr(n, 'nodeargd', None), 'verbatim_text', None) is None \
+                            and src != head + ps and pos_end < L:
+                        probs.append(('argumentless-macro-span', (n.macroname, ps, src)))
         elif k == 'specials':
             if n.specials_chars == '\n\n':
                 # paragraph break: spans first..last newline of a whitespace run
